@@ -351,6 +351,9 @@ def build_value(world, dom, name):
             vals[k] = v
             decs[k] = d
         return vals, Decoder(lambda m: {'$dict': {k: d(m) for k, d in decs.items()}})
+    if isinstance(dom, S.AnyObj):
+        from . import records as REC
+        return REC.SAnyObj(name), Decoder(lambda m: {'$anyobj': name})
     if isinstance(dom, S.Abstract):
         fn = AbstractFn(world, dom, name)
         return fn, Decoder(lambda m: {'$abstract': dom.name})
@@ -415,8 +418,14 @@ class AbstractFn:
         mkey = ('abstract', self.name, tuple(arg_key(a) for a in args))
         if os.environ.get('PYVC_DEBUG'):
             print('ABSTRACT-CALL', mkey, kwargs)
-        if mkey in ex.modular_memo:
+        if self.dom.pure and mkey in ex.modular_memo:
             return ex.modular_memo[mkey]
+        if self.dom.effects is not None:
+            self.dom.effects(self.world.verifier, interp, list(args))
+        if self.dom.raises:
+            k = ex.choose(len(self.dom.raises) + 1)
+            if k:
+                raise PyExc(self.dom.raises[k - 1], f'raised by the abstract callable {self.name}')
         res, _ = build_value(self.world, pick_alt(self.world, self.dom.returns),
                              ex.fresh_name(f'{self.name}.ret'))
         ex.modular_memo[mkey] = res
@@ -973,6 +982,11 @@ class Verifier:
                     byname = dict(zip(names, args))
                     fenv = Env({k: byname[k] for k in c.free_vars}, None, closure.module)
                     target = Closure(closure.node, fenv, closure.module, closure.name)
+                if getattr(c, 'prepare', None) is not None:
+                    c.prepare(self, self.interp, target, dict(zip(names, args)))
+                    if getattr(c, 'record', False):
+                        from . import records as REC
+                        REC.take_snapshot(self, args)
                 result = self.interp.call_function(target, call_args, call_kwargs)
                 outcome = ('return', result)
             except PyExc as e:
